@@ -103,11 +103,8 @@ def run_property(prop_id: str, tier: str, seed: int, repo_root: str = "/repo",
     work += [(prop_id, "lemma", k, tier, repo_root) for k, _ in plan.get("lemmas", [])]
     side = _start_native_side_check(prop_id, mod, tier, seed, repo_root)
     n = jobs or min(16, max(1, len(work)))
-    if n > 1:
-        with mp.get_context("fork").Pool(n) as pool:
-            reports = pool.map(_worker, work, chunksize=1)
-    else:
-        reports = [_worker(w) for w in work]
+    from .forkmap import fork_map
+    reports = fork_map(_worker, work, n)
     extra = []
     if hasattr(mod, "extra_checks"):
         extra = mod.extra_checks(tier, seed, repo_root) or []
@@ -137,12 +134,12 @@ def run_engine_a(prop_id: str, tier: str, seed: int, repo_root: str = "/repo", r
     mod, reg, plan = _make_registry(prop_id, repo_root)
     work = [(prop_id, "fn", k, tier, repo_root) for k in plan["targets"]]
     work += [(prop_id, "lemma", k, tier, repo_root) for k, _ in plan.get("lemmas", [])]
+    side = _start_native_side_check(prop_id, mod, tier, seed, repo_root)
     n = jobs or min(16, max(1, len(work)))
-    if n > 1:
-        with mp.get_context("fork").Pool(n) as pool:
-            reports = pool.map(_worker, work, chunksize=1)
-    else:
-        reports = [_worker(w) for w in work]
+    from .forkmap import fork_map
+    reports = fork_map(_worker, work, n)
+    if side is not None:
+        reports.extend(_finish_native_side_check(prop_id, side, repo_root))
     controls = None
     if tier == "thorough" and not os.environ.get("PYVC_NO_EVIDENCE") and getattr(mod, controls_attr, None):
         saved = os.environ.get("PYVC_ENGINE_A_ONLY")
@@ -213,6 +210,13 @@ def _finish_native_side_check(prop_id, side, repo_root):
             "model": {"falsifier_output": tail[-1200:]} if reproduced else None, "lineno": None, "func": func, "path": [],
             "note": "bounded: the sampled inputs of the property's native falsifier", "known": None, "nolock": True,
             "native_replay": nat})
+        # inputs of OPEN known findings that the falsifier re-runs and reports as still failing
+        for fid in sorted(set(re.findall(r"KNOWN-FINDING-(F[0-9]+[a-z]?)-INPUT-FAILS", tail))):
+            rep["obligations"].append({
+                "name": f"{func}/known-finding-input-{fid}", "kind": "bounded-native", "status": "known",
+                "backend": "native(real torch, IEEE floats)", "time_s": 0.0, "model": None, "lineno": None, "func": func,
+                "path": [], "note": "the recorded input of an open known finding still fails", "known": [fid],
+                "nolock": True})
     else:
         # did not finish / harness error: recorded, never a verdict
         print(f"NOTE: native side check of {prop_id} did not complete (exit {rc}): {(err or tail)[-200:]!r}")
@@ -467,6 +471,12 @@ def finish(prop_id, tier, seed, mod, plan, reports, t0, relock, repo_root):
         "bounded": plan.get("bounded", []),
         "lock_size": len(locked),
     }
+    if any(o["kind"] == "bounded-native" for o in obs):
+        cov["bounded"] = list(cov["bounded"]) + [
+            "native-falsifier[side check]/*: BOUNDED, not a proof -- the property's native falsifier (sampled inputs run "
+            "through the real code with real torch in IEEE floats) is run as a complement to the obligations above, which "
+            "read floats as reals (A1) and cover only the functions under contract; one obligation, counted separately in "
+            "by_kind['bounded-native']"]
     if level != "proof":
         cov["evaluations"] = n_obs
         cov["distinct_nontrivial"] = len(groups)
